@@ -102,6 +102,46 @@ func (s *allocState) exec(c *ctx, op string) string {
 		})
 		c.emit(op, res)
 		return res
+	case "arace": // arace <ip|-> <ones> <bits> <k> <rounds>: k callers at once with the same hint, again and again
+		if s.a == nil {
+			return ""
+		}
+		hint := net.IPNet{IP: net.IP(unhx(f[1])), Mask: maskOf(atoi(f[2]), atoi(f[3]))}
+		k, rounds := atoi(f[4]), atoi(f[5])
+		res := "ok"
+		for r := 0; r < rounds && res == "ok"; r++ {
+			got := make([]net.IPNet, k)
+			errs := make([]error, k)
+			fs := make([]func() string, k)
+			for i := range fs {
+				i := i
+				fs[i] = func() string { got[i], errs[i] = s.a.Allocate(hint); return "done" }
+			}
+			for _, st := range together(fs) {
+				if st == "HANG" {
+					res = "HANG"
+				}
+			}
+			seen := map[string]bool{}
+			for i := range got {
+				if errs[i] != nil {
+					continue
+				}
+				key := got[i].String()
+				if seen[key] {
+					res = fmt.Sprintf("dup %s round %d", fmtAllocRes(got[i], nil)[3:], r)
+				}
+				seen[key] = true
+			}
+			for key := range seen {
+				_, n, _ := net.ParseCIDR(key)
+				if err := s.a.Free(*n); err != nil && res == "ok" {
+					res = "freefail " + strings.ReplaceAll(key, " ", "")
+				}
+			}
+		}
+		c.emit(op, res)
+		return res
 	case "free":
 		if s.a == nil {
 			return ""
